@@ -118,6 +118,7 @@ var c08Sets = registerSpace(&e1Space{
 		}
 		return &rj.Program{Files: files, Entry: entry.Name, Mk: c08Mk}
 	},
+	Extra: e1EveryEntry,
 })
 
 // space "params": default patterns x ordered argument subsets
